@@ -73,6 +73,11 @@ theorem pow_ok (u z : UnitV K) (p : Rat) (h : u.pow p = .ok z) :
   cases h
   exact ⟨rfl, rfl, rfl, rfl⟩
 
+/-- true division of zero-offset units succeeds unless a logarithmic unit meets a dimensional one -/
+theorem div_ok_of_not_log (u0 u1 : UnitV K) (h0 : u0.offset = 0) (h1 : u1.offset = 0)
+    (l0 : u0.isLogarithmic = false) (l1 : u1.isLogarithmic = false) : ∃ z, u0.div u1 = .ok z := by
+  simp [UnitV.div, h0, h1, l0, l1]
+
 /-- `simplify` changes nothing but the expression -/
 theorem simplify_ok (pre : Prefixes K) (t : Lut K) (r s : UnitV K) (h : simplify pre t r = .ok s) :
     s.scale = r.scale ∧ s.dim = r.dim ∧ s.offset = r.offset ∧ s.canon = r.canon
